@@ -3,10 +3,10 @@
    slice text, declaration text, concatenation (run-length grouping), low-end alignment, and their
    composition for one written instance port (slice-or-concatenation decision included).
    Not proved: the document-level statement C04_full below (module headers/aliases, assign regeneration,
-   options) - VRead.elab / VWrite.emit are not modelled; that level is covered by the oracle of
-   harness/verilog_check.py on the implementation only. Character-level tokenisation is not modelled. *)
+   options) - the document-level writer is not modelled (the reader is: Fmt/VElab.v); that level is covered by the
+   oracle of harness/verilog_check.py on the implementation only. Character-level tokenisation is not modelled. *)
 From Coq Require Import List ZArith Bool Permutation.
-From SV Require Import Base.Base Fmt.VBits Fmt.VExpr Fmt.VDoc
+From SV Require Import Base.Base Fmt.VBits Fmt.VExpr Fmt.VDoc Fmt.VElab
   Proofs.VerilogLists Proofs.VerilogSlice Proofs.VerilogGrow Proofs.VerilogPort Proofs.VerilogAssign.
 Import ListNotations.
 Open Scope Z_scope.
@@ -104,8 +104,10 @@ Theorem C04_assign_single_bit : forall e c i c2 i2,
 Proof. exact assign_single_bit_lemma. Qed.
 Print Assumptions C04_assign_single_bit.
 
-(* The statement at full strength. elab/emit: document-level models of VerilogParser.parse_verilog and
-   Composer._compose over Fmt/VDoc.v (not written). *)
-Definition C04_full (elab : vdoc -> option nv) (emit : vopts -> nv -> vdoc) : Prop :=
-  forall d n o, elab d = Some n -> o_definition_list o = None -> o_write_blackbox o = true ->
-    exists n', elab (emit o n) = Some n' /\ same_netlist n n'.
+(* The statement at full strength. The reader is the document-level model Fmt/VElab.v elab (tied to
+   VerilogParser on every run of C06); emit: the document-level model of Composer._compose over Fmt/VDoc.v
+   (not written: the write side of the round trip is covered by the oracle of harness/verilog_check.py on the
+   implementation and by the mechanism theorems above). *)
+Definition C04_full (emit : vopts -> nv -> vdoc) : Prop :=
+  forall d n o, elab d = Ok n -> o_definition_list o = None -> o_write_blackbox o = true ->
+    exists n', elab (emit o n) = Ok n' /\ same_netlist n n'.
